@@ -1,5 +1,6 @@
 //! Glue between the model (`vmodel`) and the real crates in /repo.
 pub use arrayvec;
+pub use chrono;
 pub use indexmap;
 pub use parking_lot;
 pub use savefile;
